@@ -98,23 +98,28 @@ CLAIMED['C11'] = dict(
               'on find/sort/skip/limit/slices/count/aggregate and an independent python oracle',
     text='Lean 4 theorems about the model of resolve_sort_key / _get_dataset / Cursor / '
          'count_documents / $sort-$skip-$limit: on the domain D (sort keys reaching null, bool, '
-         'numbers, strings, naive dates or nothing) the sort never raises and returns a permutation '
-         'of its input that is sorted by the key-by-key BSON order with ties in natural order; the '
-         'key order is a strict weak order on ALL documents; any stable sorted permutation equals '
-         'the model\'s (so modelling timsort by insertion sort loses nothing); successive stable '
-         'sorts from the last key to the first equal one sort by the lexicographic order; '
-         'descending = stable sort by the flipped order; a missing key ties with null; for ANY '
-         'constructor arguments and any sequence of cursor calls the results are '
-         '(sorted.drop skip).take limit (the empty slice [k:k] is a known finding, refuted on a '
-         'witness); count_documents equals the window length; update/replace never move a '
-         'document and ids always come in insertion order of the survivors; $sort/$skip/$limit '
-         'pipelines equal the find path. Tie: scenarios over 0-8 documents with mixed BSON types, '
-         'ties and missing values, random cursor-method sequences, slices, negative limits, '
-         'count_documents, aggregate and write histories are run on /repo and on the compiled '
-         'model and compared with an independent python oracle.',
-    note='Known findings: empty cursor slice, array sort keys use the first element, ObjectId '
-         'sort keys raise (no bson). Sort keys that are embedded documents / nested arrays and '
-         'cursor reconfiguration after iteration started are outside D.')
+         'numbers, strings, naive dates, ObjectIds supplied by the caller, arrays of those - also '
+         'through arrays of sub-documents - or nothing) the sort never raises and returns a '
+         'permutation of its input that is sorted by the key-by-key BSON order (an array counts '
+         'as its smallest item for an ascending key, its largest for a descending one, an empty '
+         'array before null) with ties in natural order; the key order is a strict weak order on '
+         'ALL documents; any stable sorted permutation equals the model\'s (so modelling timsort '
+         'by insertion sort loses nothing); successive stable sorts from the last key to the '
+         'first equal one sort by the lexicographic order; descending = stable sort by the '
+         'flipped order; a missing key ties with null; for ANY constructor arguments and any '
+         'sequence of cursor calls - empty slices [k:k] included - the results are '
+         '(sorted.drop skip).take limit; count_documents equals the window length; '
+         'update/replace never move a document and ids always come in insertion order of the '
+         'survivors; $sort/$skip/$limit pipelines equal the find path. Tie: scenarios over 0-8 '
+         'documents with mixed BSON types, arrays, ObjectIds, ties and missing values, random '
+         'cursor-method sequences, slices, negative limits, count_documents, aggregate and write '
+         'histories are run on /repo and on the compiled model and compared with an independent '
+         'python oracle.',
+    note='The three former known findings (empty cursor slice, array sort keys using the first '
+         'element, ObjectId sort keys raising without bson) are repaired in the library and '
+         'inside D now; their witnesses are replayed on every run. Sort keys that are embedded '
+         'documents / nested arrays, ObjectIds generated by the library (their value is not '
+         'modelled) and cursor reconfiguration after iteration started are outside D.')
 
 CLAIMED['C17'] = dict(
     technique='Lean 4 refinement of the catalog state machine (lazy stores, derived existence, '
